@@ -12,7 +12,9 @@ ID="${1:?usage: run.sh <Cxx> [quick|thorough]}"; shift
 TIER="${1:-${VERIF_TIER:-quick}}"; [ $# -gt 0 ] && shift
 REPO="${VERIF_REPO:-/repo}"
 mkdir -p bin evidence replays
-ulimit -v 33554432 2>/dev/null   # 32 GiB address space cap: a runaway allocation kills the check (exit 2), not the box
+# 32 GiB address space cap: a runaway allocation kills the check (exit 2), not the box
+# (not for C13: the race detector reserves terabytes of address space)
+[ "$ID" = C13 ] || ulimit -v 33554432 2>/dev/null
 
 OUT="${VERIF_OUT:-$VERIF}"
 BINDIR="bin/run.$$"; mkdir -p "$BINDIR"
@@ -32,7 +34,11 @@ build_plain() {
 }
 
 case "$ID" in
-  C05|C11)
+  selftest-instr)
+    ID=selftest
+    INSTR=1
+    ;;&
+  C05|C11|selftest-instr)
     mkdir -p "${VERIF_SCRATCH:-/root/scratch}" 2>/dev/null
     SCR="$(mktemp -d "${VERIF_SCRATCH:-/root/scratch}/instr.XXXXXX" 2>/dev/null || mktemp -d)"
     CGO_ENABLED=0 go build -o $BINDIR/instr ./cmd/instr 2> $BINDIR/build.err || { echo "BUILD FAILED (cmd/instr):" >&2; cat $BINDIR/build.err >&2; exit 2; }
@@ -44,6 +50,11 @@ case "$ID" in
     CGO_ENABLED=0 go build -modfile="$SCR/go.mod" -tags "verif verifinstr" -o "$BIN" ./cmd/check 2> $BINDIR/build.err || {
       echo "BUILD FAILED (instrumented):" >&2; cat $BINDIR/build.err >&2; exit 2; }
     if [ "$ID" = C11 ]; then build_plain $BINDIR/check; export VERIF_PLAIN_BIN="$VERIF/$BINDIR/check"; fi
+    ;;
+  C13)
+    BIN="$BINDIR/check-race"
+    CGO_ENABLED=1 go build $MODFLAG -race -tags verif -o "$BIN" ./cmd/check 2> $BINDIR/build.err || {
+      echo "BUILD FAILED (-race build):" >&2; cat $BINDIR/build.err >&2; exit 2; }
     ;;
   *)
     BIN="$BINDIR/check"
